@@ -177,6 +177,27 @@ func c08R1(r *Report, sh *ssa.Function) {
 		}
 	}
 	if !nz {
+		// selected := choose(…); if selected == 0 { return err }; binary.BigEndian.PutUint32(cryptoSelect, selected)
+		allInstrs(sh, func(in ssa.Instruction) {
+			c, ok := in.(*ssa.Call)
+			if !ok || calleeObj(c) == nil || calleeObj(c).Name() != "PutUint32" || calleeObj(c).Pkg() == nil || calleeObj(c).Pkg().Path() != "encoding/binary" {
+				return
+			}
+			args := c.Call.Args
+			if l, okl := madeLen(args[len(args)-2]); !okl || l != 4 {
+				return
+			}
+			sel := stripIntConv(args[len(args)-1])
+			for _, g := range guardsOf(w.Block()) {
+				if op, x, y, okc := cmpFact(g); okc && op == token.NEQ {
+					if k, okk := constInt(y); okk && k == 0 && stripIntConv(x) == sel {
+						nz = true
+					}
+				}
+			}
+		})
+	}
+	if !nz {
 		// no explicit test: then every path to the reply has made a selection (switch with a rejecting default)
 		isSel := map[ssa.Instruction]bool{}
 		for _, st := range sites {
@@ -222,6 +243,8 @@ func c08R2(r *Report, ch *ssa.Function) {
 	r.Sentinel("R2.offer", nOffer, 2)
 	// acceptance: returns inside the switch on cryptoSelect
 	ne := newNilEnv(r.P)
+	nilReturnsExpand = expandBitGuards // a test of the offer's bits (provide&1 != 0) implies what setting the bit required
+	defer func() { nilReturnsExpand = nil }()
 	seenCase := map[int64]bool{}
 	for _, ret := range returnsOf(ch) {
 		// which case? dominated by cryptoSelect == k
